@@ -1519,11 +1519,11 @@ fn g_moof(r: &mut Rng, seq: u32, track_ids: &[u32]) -> Vec<u8> {
 /// which is continued by one movie fragment with tens of thousands of track fragments (most of
 /// them without a run, some with a one-sample run of size 0). Whatever is done per traf - at
 /// open or per sample read - must not be multiplied by the number of trafs or by the length of
-/// the chunk. About 1 MB.
+/// the chunk. 1.5 to 3 MB.
 pub fn traf_storm_image(seed: u64) -> (Vec<u8>, Option<usize>) {
     let mut r = Rng::new(seed ^ 0x57A4);
-    let k = 2000 + r.below(6000) as u32;
-    let t = 30_000 + r.below(11_000) as u32;
+    let k = 8000 + r.below(16_000) as u32;
+    let t = 60_000 + r.below(60_000) as u32;
     let mut ops = vec![Op::AddTrack(TrackCfg { kind: Kind::Ttxt, track_type: Kind::Ttxt.natural_track_type(), timescale: 1000, language: "und".into(), width: 0, height: 0, sps: vec![], pps: vec![], aac_profile: 2, freq_index: 3, chan_conf: 2, bitrate: 0 })];
     for i in 0..k {
         // duration 0: the samples never complete a chunk, write_end flushes them as one
